@@ -122,6 +122,22 @@ func vfCallProgs() map[string][]*vfN {
 		"module-deref-call-fwd":   {pkg0, {K: "Name", Name: "VAL0", C: []*vfN{vfI(0)}}, store(op(derefOf, op(index, &vfN{K: "Call", Name: "PKG0"}, call("M001", vfI(1)), null)), &vfN{K: "Call", Name: "VAL0"}), m1(1)},
 		"module-if-call-2args-fwd": {{K: "If", C: []*vfN{op(lEqual, call("M001", vfI(1), vfI(2)), vfI(2)), store(vfI(1), loc0)}}, m1(2)},
 		"module-nested-calls-fwd": {{K: "Name", Name: "VAL0", C: []*vfN{vfI(0)}}, store(call("M001", call("M002", vfI(1)), vfI(2)), &vfN{K: "Call", Name: "VAL0"}), m1(2), meth("M002", 1, arg0...)},
+		// module-level operators whose LAST operand is a call declared later: the call's arguments were parsed as siblings
+		// of the operator and have to be pulled in from the parent's level
+		"module-lnot-call-last-fwd":   {{K: "Name", Name: "VAL0", C: []*vfN{vfI(0)}}, store(op(lNot, call("M001", vfI(1))), &vfN{K: "Call", Name: "VAL0"}), m1(1)},
+		"module-lnot-call2-last-fwd":  {{K: "Name", Name: "VAL0", C: []*vfN{vfI(0)}}, store(op(lNot, call("M001", vfI(1), vfI(2))), &vfN{K: "Call", Name: "VAL0"}), m1(2)},
+		"module-deref-call-last-fwd":  {{K: "Name", Name: "VAL0", C: []*vfN{vfI(0)}}, store(op(derefOf, call("M001", vfI(1))), &vfN{K: "Call", Name: "VAL0"}), m1(1)},
+		"module-lequal-call-last-fwd": {{K: "If", C: []*vfN{op(lEqual, vfI(2), call("M001", vfI(1), vfI(2))), store(vfI(1), loc0)}}, m1(2)},
+		"module-if-lnot-call-fwd":     {{K: "If", C: []*vfN{op(lNot, call("M001", vfI(1))), store(vfI(1), loc0)}}, m1(1)},
+		"module-nested-last-fwd":      {{K: "Name", Name: "VAL0", C: []*vfN{vfI(0)}}, store(op(lNot, op(lNot, call("M001", vfI(1)))), &vfN{K: "Call", Name: "VAL0"}), m1(1)},
+		// operators whose first operand is a SuperName holding another operator (SizeOf(DerefOf(Index(..))) and friends):
+		// the inner operator is attached to the outer one at once and finds its own operands among the outer one's siblings
+		"sizeof-deref-index":          {pkg0, meth("M000", 0, ret(op(sizeOf, op(derefOf, op(index, &vfN{K: "Call", Name: "PKG0"}, vfI(1), null)))))},
+		"sizeof-deref-index-call-fwd": {pkg0, meth("M000", 0, ret(op(sizeOf, op(derefOf, op(index, &vfN{K: "Call", Name: "PKG0"}, call("M001", vfI(1)), null))))), m1(1)},
+		"sizeof-deref-call-fwd":       {meth("M000", 0, ret(op(sizeOf, op(derefOf, call("M001", vfI(1), vfI(2)))))), m1(2)},
+		"objtype-deref-index-module":  {pkg0, {K: "Name", Name: "VAL0", C: []*vfN{vfI(0)}}, store(op("8e", op(derefOf, op(index, &vfN{K: "Call", Name: "PKG0"}, call("M001", vfI(0)), null))), &vfN{K: "Call", Name: "VAL0"}), m1(1)},
+		"incr-index":                  {pkg0, meth("M000", 0, op(incr, op(index, &vfN{K: "Call", Name: "PKG0"}, vfI(0), null)), ret(vfI(0)))},
+		"notify-deref-index-call-fwd": {pkg0, meth("M000", 0, op(notify, op(derefOf, op(index, &vfN{K: "Call", Name: "PKG0"}, call("M001", vfI(0)), null)), vfI(0x80)), ret(vfI(0))), m1(1)},
 		// a call whose argument is itself an operator with arguments (the operator's arguments follow at the outer level)
 		"call-arg-operator-stmt-fwd": {pkg0, meth("M000", 0, call("M001", op(derefOf, op(index, &vfN{K: "Call", Name: "PKG0"}, vfI(0), null))), ret(vfI(0))), m1(1)},
 		"call-arg-operator-stmt-bwd": {pkg0, m1(1), meth("M000", 0, call("M001", op(derefOf, op(index, &vfN{K: "Call", Name: "PKG0"}, vfI(0), null))), ret(vfI(0)))},
@@ -389,7 +405,7 @@ func TestVerifC11(t *testing.T) {
 		}
 	}
 	run.Count("rejected_by_reference_as_ill_formed", c.skipped)
-	run.Finish(true, fmt.Sprintf("T1: 20 constructs x 7 name forms x 13 containers x PkgLength encodings %v; T2: 41 call/field/operator/module-level programs x 13 containers, every ordered pair of constructs x 13 containers; T3: constructs x name forms x 8x8 nested containers (thorough: all constructs; plus T2 programs in 8x8 nested containers and every ordered triple of constructs in 4 containers); T4: 5 first tables x 7 second tables (Scope into / call into / plain) x constructs, and 3 first tables with deferred blocks (Buffer, While, Package) x later tables that need the two-phase treatment again (forward calls, nested packages followed by siblings, every T2 program), two and three tables on one parser; T5: every ordered pair and triple of 7 scope/relocation blocks whose resolution needs several passes (also split over two tables)", pfs),
+	run.Finish(true, fmt.Sprintf("T1: 20 constructs x 7 name forms x 13 containers x PkgLength encodings %v; T2: 53 call/field/operator/module-level programs x 13 containers, every ordered pair of constructs x 13 containers; T3: constructs x name forms x 8x8 nested containers (thorough: all constructs; plus T2 programs in 8x8 nested containers and every ordered triple of constructs in 4 containers); T4: 5 first tables x 7 second tables (Scope into / call into / plain) x constructs, and 3 first tables with deferred blocks (Buffer, While, Package) x later tables that need the two-phase treatment again (forward calls, nested packages followed by siblings, every T2 program), two and three tables on one parser; T5: every ordered pair and triple of 7 scope/relocation blocks whose resolution needs several passes (also split over two tables)", pfs),
 		"a program is distinct by its ASL rendering and non-trivial if the reference accepts it as well-formed and the parsed namespace agrees with it")
 }
 
